@@ -223,10 +223,13 @@ static void part_b(report& r)
     using R = runner<T, K>;
     using C = typename R::C;
     std::string const tn = vf::type_name<T>();
-    std::vector<sz> const calls = {4, 6, 5, 8, 7};
     hep::callback_mode const modes[] = {hep::callback_mode::silent, hep::callback_mode::silent_and_write_chkpt, hep::callback_mode::verbose, hep::callback_mode::verbose_and_write_chkpt};
+    // the second list has iterations that are asked for zero calls
+    for (int list = 0; list != 2; ++list)
     for (int kind = 0; kind != 8; ++kind)
     {
+        std::vector<sz> const calls = list == 0 ? std::vector<sz>{4, 6, 5, 8, 7} : std::vector<sz>{5, 0, 6, 0, 7};
+        if (list == 1 && kind != 2 && kind != 4 && kind != 5) continue;
         // reference results: iterations do not depend on the callback
         g_kind = kind; g_counter = 0;
         vf::script_engine::table().clear();
@@ -247,7 +250,7 @@ static void part_b(report& r)
         for (int world = 0; world <= 2; world += 2)
         {
             if (world != 0 && mi % 2 == 1 && false) continue;
-            std::string const id = tn + " B kind=" + std::to_string(K) + " integrand=" + std::to_string(kind) + " target#" + std::to_string(ti) + "=" + vf::dec(targets[ti])
+            std::string const id = tn + " B kind=" + std::to_string(K) + (list ? " zero-call-iterations" : "") + " integrand=" + std::to_string(kind) + " target#" + std::to_string(ti) + "=" + vf::dec(targets[ti])
                 + " mode=" + std::to_string(mi) + " world=" + std::to_string(world);
             if (!r.want(id)) continue;
             r.eval();
